@@ -100,6 +100,8 @@ func editBytes(old []byte, sib []byte, e edit, r *rand.Rand) []byte {
 		return b
 	case "sibling":
 		return append([]byte{}, sib...)
+	case "setint": // the minimal big-endian encoding of the integer v (a chosen RSA public exponent)
+		return big.NewInt(int64(e.V)).Bytes()
 	}
 	vt.Fatal("bytes op %q unknown (path %s)", e.Op, e.Path)
 	return nil
